@@ -34,6 +34,8 @@ import (
 	"time"
 
 	"git.torproject.org/pluggable-transports/snowflake.git/v2/common/amp"
+	"git.torproject.org/pluggable-transports/snowflake.git/v2/common/ipsetsink"
+	"git.torproject.org/pluggable-transports/snowflake.git/v2/common/ipsetsink/sinkcluster"
 	"git.torproject.org/pluggable-transports/snowflake.git/v2/common/messages"
 	dto "github.com/prometheus/client_model/go"
 )
@@ -92,6 +94,8 @@ type vRig struct {
 	gateMode bool
 	lockstep bool
 	similar  bool
+	jbuf     *vJournalBuf
+	jstart   time.Time
 	out      *os.File
 	sidName  map[string]string // wire session id -> request name that introduced it
 	diverged string
@@ -234,6 +238,68 @@ func vOfferName(text string) string {
 	return rest[:j]
 }
 
+// vJournalBuf is the distinct-IP journal of one scenario (a WriteSyncer in memory).
+type vJournalBuf struct {
+	mu  sync.Mutex
+	buf bytes.Buffer
+}
+
+func (j *vJournalBuf) Write(p []byte) (int, error) {
+	j.mu.Lock()
+	defer j.mu.Unlock()
+	return j.buf.Write(p)
+}
+func (j *vJournalBuf) Sync() error { return nil }
+
+const vJournalInterval = vTick
+
+// journalStart installs a fresh journal writer (inside the bubble: it reads the fake clock).
+func (r *vRig) journalStart() {
+	r.jbuf = &vJournalBuf{}
+	r.jstart = time.Now()
+	r.ctx.metrics.lock.Lock()
+	r.ctx.metrics.SetIPAddressRecorder(sinkcluster.NewClusterWriter(r.jbuf, vJournalInterval, ipsetsink.NewIPSetSink("verif-masking-key")))
+	r.ctx.metrics.lock.Unlock()
+}
+
+// journalEnd flushes the journal and reports, per chunk, its bounds (ms since the scenario began) and
+// the number of distinct addresses the real reader counts for a window that is exactly that chunk.
+func (r *vRig) journalEnd() vEvent {
+	r.ctx.metrics.lock.Lock()
+	w := r.ctx.metrics.distinctIPWriter
+	if w != nil {
+		w.WriteIPSetToDisk()
+	}
+	r.ctx.metrics.SetIPAddressRecorder(nil)
+	r.ctx.metrics.lock.Unlock()
+	r.jbuf.mu.Lock()
+	data := append([]byte(nil), r.jbuf.buf.Bytes()...)
+	r.jbuf.mu.Unlock()
+	chunks := []interface{}{}
+	leak := false
+	for _, line := range bytes.Split(data, []byte("\n")) {
+		if len(bytes.TrimSpace(line)) == 0 {
+			continue
+		}
+		if bytes.Contains(line, []byte("192.0.2.")) {
+			leak = true
+		}
+		var e sinkcluster.SinkEntry
+		if err := json.Unmarshal(line, &e); err != nil {
+			chunks = append(chunks, map[string]interface{}{"s": -1, "e": -1, "n": -1})
+			continue
+		}
+		res, err := sinkcluster.NewClusterCounter(e.RecordingStart, e.RecordingEnd).Count(bytes.NewReader(data))
+		n := -1
+		if err == nil {
+			n = int(res.Sum)
+		}
+		chunks = append(chunks, map[string]interface{}{"s": int(e.RecordingStart.Sub(r.jstart) / time.Millisecond),
+			"e": int(e.RecordingEnd.Sub(r.jstart) / time.Millisecond), "n": n})
+	}
+	return vEvent{"ev": "journal", "chunks": chunks, "addrtext": leak}
+}
+
 // hook is installed as the package's VerifHook.
 func (r *vRig) hook(point string, args ...interface{}) {
 	g := r.who()
@@ -248,6 +314,7 @@ func (r *vRig) hook(point string, args ...interface{}) {
 		ev["locked"] = r.probe()
 		r.mu.Lock()
 		ev["addr"], ev["relayext"], ev["loadwire"], ev["natwire"] = "?", true, 0, args[1]
+		ev["t"] = int(time.Since(r.jstart) / time.Millisecond)
 		if q := r.reqs[ev["p"].(string)]; q != nil {
 			// what the proxy actually reported on the wire (the count as its order-preserving abstraction)
 			ev["addr"], ev["relayext"], ev["loadwire"], ev["natwire"] = q.addr, !q.norelay, q.load, q.nat
@@ -922,6 +989,7 @@ func (r *vRig) runScenario(t *testing.T, sc *vScenario) (events []vEvent, hung b
 			r.ctx.proxyPolls = make(chan *ProxyPoll)
 			go r.ctx.Broker()
 			VerifHook = r.hook
+			r.journalStart()
 			r.runSteps(sc)
 			end := r.observeEnd(sc)
 			var metrics map[string]interface{}
@@ -943,6 +1011,7 @@ func (r *vRig) runScenario(t *testing.T, sc *vScenario) (events []vEvent, hung b
 			}
 			r.emit(end)
 			if metrics != nil {
+				r.emit(r.journalEnd())
 				r.emit(vEvent{"ev": "metrics", "m": metrics, "nfresh": len(end["fresh"].([]string))})
 			}
 			VerifHook = nil
